@@ -73,6 +73,23 @@ pub fn main(ctx: &Ctx) -> i32 {
         }
     };
     if let Some(p) = &ctx.replay {
+        if read_replay::<Case>(p).is_err() {
+            if let Ok(hc) = read_replay::<crate::c12h::RCase>(p) {
+                let work = std::path::Path::new(VERIF_ROOT).join("work").join(format!("{}-replay-{}", ctx.id, std::process::id()));
+                return match crate::c12h::start_node(&work, ctx.seed) {
+                    Ok((mut cluster, target)) => {
+                        let rep = crate::c12h::run_case(&hc, &target);
+                        cluster.cleanup();
+                        std::fs::remove_dir_all(&work).ok();
+                        finish_replay(ctx, rep, p)
+                    }
+                    Err(e) => {
+                        eprintln!("cannot start the node of the black-box tier: {}", e);
+                        2
+                    }
+                };
+            }
+        }
         return match read_replay::<Case>(p) {
             Ok(c) => finish_replay(ctx, run_case(&c, id), p),
             Err(e) => {
@@ -121,5 +138,27 @@ pub fn main(ctx: &Ctx) -> i32 {
         eprintln!("inconclusive: only {} of {} cases were evaluated", stats.evaluations.load(Ordering::Relaxed), expected);
         return 2;
     }
-    finish(ctx, &stats, finish_info(id), fail)
+    if fail.is_some() || id != "C12" {
+        return finish(ctx, &stats, finish_info(id), fail);
+    }
+    // C12 black-box tier (c12h.rs): the shipped HTTP and gRPC handlers of a real single node
+    let work = std::path::Path::new(VERIF_ROOT).join("work").join(format!("{}-{}-{}", ctx.id, ctx.tier.name(), std::process::id()));
+    let mut fin = finish_info(id);
+    fin.rule.push_str(" BLACK-BOX TIER (labels H_*): generated histories (4..22 ops) against a real single node through POST/DELETE/GET /nacos/v1/ns/instance, /nacos/v1/ns/instance/list (healthyOnly false and true) and gRPC InstanceRequest / ServiceQueryRequest over up to two held bi-stream connections: HTTP addresses written over HTTP (enabled true/false, weight 2..4), connection addresses registered / deregistered by one connection at a time, connection close; after every op (state given up to 2 s to show) both lists of both services == the registered and enabled instances of the reference map, no disabled / unhealthy / persistent / duplicate host in any answer; at the end the detail view of every registered instance (also disabled ones) carries the registered enabled flag and weight; non-trivial there = a connection closed while holding registrations, or a disabled instance present.");
+    let failh = match crate::c12h::start_node(&work, ctx.seed) {
+        Ok((mut cluster, target)) => {
+            let n_h = ctx.tier.pick(240u32, 4_000u32);
+            let t2 = target.clone();
+            let f = run_cases(ctx, &stats, crate::c12h::case_strategy as fn() -> _, n_h, 8, 300, move |c| crate::c12h::run_case(c, &t2));
+            cluster.cleanup();
+            f
+        }
+        Err(e) => {
+            eprintln!("C12 black-box tier: node did not start ({}); the actor tier decides alone", e);
+            stats.label("blackbox_tier_unavailable");
+            None
+        }
+    };
+    std::fs::remove_dir_all(&work).ok();
+    finish(ctx, &stats, fin, failh)
 }
